@@ -257,6 +257,18 @@ def doInstall (s : HSt) (hdr obs : List String) : HSt := Id.run do
         s := checkAfter s obs "install"
       | none => s := s.disagree "install:model-panics"
     | _ => s := s.disagree "install:alloc-model"
+  | some "noguard" =>
+    -- accepted without adding a guard: judged by what the named function returns from now on
+    -- (the payload's value: the requested boolean, or whatever the fake returns)
+    s := s.tag "noguard"
+    s := s.disagree "install:no-guard-added"
+    s := { s with latest := (ti, b) :: s.latest }
+    match kv obs "call" with
+    | some cs =>
+      match (parseCalls cs).getD ti none with
+      | some v => if v != expectCall s ti then s := s.fail (if kind == "b" then "c10.forced-value" else "c01.install-without-effect")
+      | none => pure ()
+    | none => pure ()
   | some p =>
     if p.startsWith "panic=" then
       s := s.tag "refused"
